@@ -1,4 +1,5 @@
 import Driver.Vectored
+import Driver.Queue
 /-!
 `driver <engine>`: reads one request per line on stdin, prints one reply per line.
 Every engine is a pure function `String → String` of the request line (stateful models receive the
@@ -6,7 +7,8 @@ whole operation sequence in one line), so a disagreement replays from the line a
 -/
 
 def engines : List (String × (String → String)) := [
-  ("vectored", Driver.Vectored.handle)
+  ("vectored", Driver.Vectored.handle),
+  ("queue", Driver.Queue.handle)
 ]
 
 partial def loop (h : IO.FS.Stream) (out : IO.FS.Stream) (f : String → String) : IO Unit := do
